@@ -141,6 +141,10 @@ func complement[T constraints.Integer](intv Interval[T], sub []Interval[T]) ([]I
 	}
 
 	intvs = append(intvs, intv)
+	if cnt == 0 {
+		// Nothing to subtract, so no subtracted interval was consumed.
+		return intvs, 0
+	}
 	return intvs, cnt - 1
 }
 
